@@ -1435,6 +1435,77 @@ theorem loop_linesMemo (w : World) (spec : Spec) (hm : ∀ c s, (w.dc c s).mtime
         exact ⟨hoff, hclock, Or.inr ⟨t, ht, hfr⟩⟩
     exact ih (hi.docStep hstep) (h.docStep hi hstep)
 
+/-! ## prepare_docs with one or two data directories -/
+
+/-- `prepare_bundled_document_set` returns `False` only when there is no document file in that directory -/
+theorem bundled_false_no_doc (w : World) (spec : Spec) (fuel : Nat) (fs : FS)
+    (h : (bundledLoop w spec fuel fs).res = .done false) : (bundledLoop w spec fuel fs).fs.doc = none := by
+  induction fuel generalizing fs with
+  | zero => simp [bundledLoop] at h
+  | succ n ih =>
+    cases hd : fs.doc with
+    | some d =>
+      by_cases hsz : sizeIs d spec.usize = true
+      · cases hres : (createFileOffsetTable w spec fs).res <;> simp [bundledLoop, hd, hsz, hres] at h
+      · simp [bundledLoop, hd, hsz] at h
+    | none =>
+      by_cases ha : (spec.hasArchive && fs.arch.isSome) = true
+      · by_cases hs : fileOk fs.arch spec.csize = true
+        · cases hres : (decompressorDecompress w spec fs).res with
+          | error e => simp [bundledLoop, hd, ha, hs, hres] at h
+          | ok u =>
+            have e : bundledLoop w spec (n + 1) fs =
+                ⟨(bundledLoop w spec n (decompressorDecompress w spec fs).fs).res,
+                 (bundledLoop w spec n (decompressorDecompress w spec fs).fs).fs,
+                 (decompressorDecompress w spec fs).trace ++ (bundledLoop w spec n (decompressorDecompress w spec fs).fs).trace⟩ := by
+              simp [bundledLoop, hd, ha, hs, hres]
+            rw [e] at h ⊢
+            exact ih _ h
+        · simp [bundledLoop, hd, ha, hs] at h
+      · have e : (bundledLoop w spec (n + 1) fs).fs = fs := by simp [bundledLoop, hd, ha]
+        rw [e]; exact hd
+
+theorem Verified.doc_isSome {w : World} {fs : FS} (h : Verified w fs) : fs.doc.isSome = true := by
+  obtain ⟨d, _, h1, _⟩ := h
+  simp [h1]
+
+theorem prepareDocs_verified (w : World) (spec : Spec) (two : Bool) (fsT fsC : FS) (plan : List Attempt)
+    (hyp : Hyp w spec plan) (hT : Inv w fsT) (hC : Inv w fsC)
+    (hok : (prepareDocs w spec two fsT fsC plan).res = .done ()) :
+    ∃ fs, resolveDoc two (prepareDocs w spec two fsT fsC plan).track (prepareDocs w spec two fsT fsC plan).corpus = some fs ∧
+      Verified w fs := by
+  cases two with
+  | false =>
+    have e : prepareDocs w spec false fsT fsC plan = ⟨(prepare w spec fsC plan).res, fsT, (prepare w spec fsC plan).fs⟩ := by
+      simp [prepareDocs]
+    rw [e] at hok ⊢
+    have hv : Verified w (prepare w spec fsC plan).fs := loop_verified w spec plan hyp FUEL fsC plan (fun _ h => h) hC hok
+    have hs : (prepare w spec fsC plan).fs.doc.isSome = true := hv.doc_isSome
+    exact ⟨(prepare w spec fsC plan).fs, by simp [resolveDoc, hs], hv⟩
+  | true =>
+    cases hb : (prepareBundled w spec fsT).res with
+    | done b =>
+      cases b with
+      | true =>
+        have hv : Verified w (prepareBundled w spec fsT).fs :=
+          bundled_verified w spec hyp.usize hyp.noMtimeRestore hyp.dcGarbage BFUEL fsT hT hb
+        have hs : (prepareBundled w spec fsT).fs.doc.isSome = true := hv.doc_isSome
+        have e : prepareDocs w spec true fsT fsC plan = ⟨.done (), (prepareBundled w spec fsT).fs, fsC⟩ := by
+          simp [prepareDocs, hb]
+        rw [e]
+        exact ⟨(prepareBundled w spec fsT).fs, by simp [resolveDoc, hs], hv⟩
+      | false =>
+        have hnone : (prepareBundled w spec fsT).fs.doc = none := bundled_false_no_doc w spec BFUEL fsT hb
+        have e : prepareDocs w spec true fsT fsC plan =
+            ⟨(prepare w spec fsC plan).res, (prepareBundled w spec fsT).fs, (prepare w spec fsC plan).fs⟩ := by
+          simp [prepareDocs, hb]
+        rw [e] at hok ⊢
+        have hv : Verified w (prepare w spec fsC plan).fs := loop_verified w spec plan hyp FUEL fsC plan (fun _ h => h) hC hok
+        have hs : (prepare w spec fsC plan).fs.doc.isSome = true := hv.doc_isSome
+        exact ⟨(prepare w spec fsC plan).fs, by simp [resolveDoc, hnone, hs], hv⟩
+    | raised e => simp [prepareDocs, hb] at hok
+    | outOfFuel => simp [prepareDocs, hb] at hok
+
 /-! ## the property's own quantifier, and concrete witnesses used by `RallyProps/C14.lean` -/
 
 structure Admissible (w : World) (spec : Spec) (fs : FS) (plan : List Attempt) : Prop where
